@@ -24,9 +24,13 @@ def ts(x):
 
 def mk_param(p):
     if isinstance(p, dict) and 'start' in p:
-        d = {'start': [ts(v) for v in p['start']], 'values': list(p['values'])}
+        conv = ts
+        if p.get('stamp_tz') and _TZ[0] is not None:
+            # the same instants, stamped in another zone than the grid's (aware time stamps compare as instants)
+            conv = lambda v: (ts(v).tz_localize(_TZ[0]) if ts(v).tzinfo is None else ts(v)).tz_convert(p['stamp_tz'])
+        d = {'start': [conv(v) for v in p['start']], 'values': list(p['values'])}
         if 'end' in p:
-            d['end'] = [ts(v) for v in p['end']]
+            d['end'] = [conv(v) for v in p['end']]
         if p.get('as_array'):
             d = {k: np.asarray(v) if k == 'values' else v for k, v in d.items()}
         return d
@@ -100,6 +104,12 @@ def mk_asset(a, pool, tz=None):
                   'capa': list(o['capa']), 'price': list(o['price'])}
         kw.pop('start', None)
         kw.pop('end', None)
+        k = a.get('created_with')
+        if k:
+            # the book is created with its first k orders and its order list is replaced afterwards (rolling intraday use)
+            ob = OrderBook(name=a['name'], nodes=mk_nodes(a['nodes'], pool)[0], orders={key: v[:k] for key, v in orders.items()}, **kw)
+            ob.orders = orders
+            return ob
         return OrderBook(name=a['name'], nodes=mk_nodes(a['nodes'], pool)[0], orders=orders, **kw)
     nodes = mk_nodes(a['nodes'], pool)
     if kind in ('SimpleContract', 'Contract') or (kind == 'Storage' and len(nodes) == 1):
